@@ -645,3 +645,105 @@ theorem tblOptimize_inv_fit (t : Tbl) (h : Inv t) (hfit : Table.GridFit (absT t)
     omega
 
 end Odf.Transform
+
+/-! ### `optimize_width` keeps every non-empty value at its coordinates -/
+namespace Odf.Transform
+open Odf.Rle Odf.Table Odf.Grid
+
+theorem getElem?_replicate_some {α} (n : Nat) (c v : α) (i : Nat) (h : (List.replicate n c)[i]? = some v) : v = c := by
+  have := List.mem_of_getElem? h
+  exact (List.mem_replicate.mp this).2
+
+theorem forceWidth_keeps (w : Nat) (d : RowD) (x v : Nat) (h : (expand d)[x]? = some v) (hv : empOf true v = false) :
+    (expand (forceWidth w d))[x]? = some v := by
+  unfold forceWidth
+  cases hl : d.getLast? with
+  | none => exact h
+  | some p =>
+    obtain ⟨c, n⟩ := p
+    simp only
+    split
+    · rename_i hcond
+      obtain ⟨he, _, _⟩ := hcond
+      have hd : d = d.dropLast ++ [(c, n)] := by
+        have hne : d ≠ [] := by intro hc; subst hc; simp at hl
+        have := List.dropLast_concat_getLast hne
+        rw [List.getLast?_eq_some_getLast hne] at hl
+        simp only [Option.some.injEq] at hl
+        rw [hl] at this
+        exact this.symm
+      rw [hd, expand_append] at h
+      rw [expand_append]
+      by_cases hx : x < (expand d.dropLast).length
+      · rw [List.getElem?_append_left hx] at h ⊢
+        exact h
+      · rw [List.getElem?_append_right (by omega)] at h
+        simp only [expand_cons, expand_nil, List.append_nil] at h
+        have := getElem?_replicate_some _ _ _ _ h
+        subst this
+        rw [he] at hv
+        cases hv
+    · exact h
+
+theorem getElem?_expand_append_left {α} (a b : Runs α) (i : Nat) (h : i < total a) : (expand (a ++ b))[i]? = (expand a)[i]? := by
+  rw [expand_append, List.getElem?_append_left (by rw [expand_length]; exact h)]
+
+theorem emp0_emp1 (c : Nat) (h : empOf false c = true) : empOf true c = true := by
+  unfold empOf at h ⊢
+  simp only [Bool.false_eq_true, if_false, if_true] at h ⊢
+  have : c = 0 := by simpa using h
+  subst this
+  decide
+
+/-- rows: a row that holds a non-empty value is not one of the trailing empty row elements, so it keeps its position -/
+theorem trimRowsOpt_keeps (rows : Runs RowD) (hp : Pos rows) (y : Nat) (d : RowD) (hy : (expand rows)[y]? = some d)
+    (x v : Nat) (hx : (expand d)[x]? = some v) (hv : empOf true v = false) :
+    (expand (trimRowsOpt rows))[y]? = some d := by
+  unfold trimRowsOpt
+  simp only
+  obtain ⟨suf, e, hs⟩ := rstripList_split (fun (r : RowD × Nat) => r.1.all (fun c => empOf false c.1)) rows
+  generalize rstripList (fun (r : RowD × Nat) => r.1.all (fun c => empOf false c.1)) rows = kept at e
+  have hyk : y < total kept := by
+    rcases Nat.lt_or_ge y (total kept) with hlt | hge
+    · exact hlt
+    · exfalso
+      rw [e, expand_append, List.getElem?_append_right (by rw [expand_length]; exact hge)] at hy
+      have hmem := List.mem_of_getElem? hy
+      obtain ⟨n, hn⟩ := mem_expand suf d hmem
+      have hall := hs (d, n) hn
+      simp only [List.all_eq_true] at hall
+      obtain ⟨m, hm⟩ := mem_expand d v (List.mem_of_getElem? hx)
+      have := emp0_emp1 v (hall (v, m) hm)
+      rw [this] at hv
+      cases hv
+  have hyk' : (expand kept)[y]? = some d := by
+    rw [e, getElem?_expand_append_left kept suf y hyk] at hy
+    exact hy
+  cases hd : rows.drop kept.length with
+  | nil => rw [e, getElem?_expand_append_left kept suf y hyk]; exact hyk'
+  | cons p rest =>
+    obtain ⟨d0, n0⟩ := p
+    simp only
+    rw [getElem?_expand_append_left kept _ y hyk]
+    exact hyk'
+
+/-- **optimize_width keeps every non-empty value (aggressive sense: a value, not a style) at its coordinates** -/
+theorem tblOptimize_keeps (t : Tbl) (h : Inv t) (x y v : Nat) (row : List Nat)
+    (hrow : (absT t).rows[y]? = some row) (hv : row[x]? = some v) (hne : empOf true v = false) :
+    ∃ row', (absT (tblOptimize t)).rows[y]? = some row' ∧ row'[x]? = some v := by
+  unfold absT at hrow
+  simp only [List.getElem?_map] at hrow
+  cases hd : (expand t.rows.runs)[y]? with
+  | none => rw [hd] at hrow; cases hrow
+  | some d =>
+    rw [hd] at hrow
+    simp only [Option.map_some, Option.some.injEq] at hrow
+    subst hrow
+    have hk := trimRowsOpt_keeps t.rows.runs h.rows.2 y d hd x v hv hne
+    unfold tblOptimize absT
+    simp only [fresh]
+    rw [expand_map_fst]
+    simp only [List.getElem?_map, hk, Option.map_some]
+    exact ⟨_, rfl, forceWidth_keeps _ d x v hv hne⟩
+
+end Odf.Transform
